@@ -164,7 +164,13 @@ HashPrefixes == { <<0, 0>>, <<0, 1>>, <<0, 127>>, <<0, 128>>, <<0, 255>>, <<1, 0
 AutoSerialCases == { [Case("autoserial", [bg EXCEPT !.serial = Auto], FALSE, "ed25519", "ed25519", Kid("sha256"), "fakepub") EXCEPT !.hash2 = h] :
                        h \in HashPrefixes, bg \in Bgs }
 
-Cases == AutoSerialCases \cup PresenceCases \cup KuCases \cup PathLenCases \cup PrefixCases \cup SanCases \cup NcCases \cup DnCases
+(* automatic serial together with pre-specified key identifiers of every length class (the serial must not depend on them) *)
+Bytes32 == <<1, 2, 3, 4, 5, 6, 7, 8, 9, 10, 11, 12, 13, 14, 15, 16, 17, 18, 19, 20, 21, 22, 23, 24, 25, 26, 27, 28, 29, 30, 31, 32>>
+LongKidCases == { Case("longkid", [Base EXCEPT !.serial = ser, !.isCa = ca, !.aki = TRUE, !.kid = KidPre(k)], self, "ed25519", "ed25519", KidPre(ik), "keypair") :
+                    ser \in {Auto, Given(<<9>>)}, ca \in {NoCa, CaU}, k \in {SubSeq(Bytes32, 1, 20), SubSeq(Bytes32, 1, 21), Bytes32, <<200>>},
+                    ik \in {SubSeq(Bytes32, 1, 20), SubSeq(Bytes32, 1, 21), Bytes32}, self \in Bool }
+
+Cases == LongKidCases \cup AutoSerialCases \cup PresenceCases \cup KuCases \cup PathLenCases \cup PrefixCases \cup SanCases \cup NcCases \cup DnCases
          \cup KidCases \cup SerialCases \cup EkuCases \cup CustomCases \cup AlgCases
 
 (* ---- abstract keys for the model (the harness substitutes real keys and real digests) ---- *)
